@@ -37,6 +37,8 @@ OBLIGATIONS = [
     "VgiVerif.C02.C02_none",
     "VgiVerif.C02.C02_signature",
     "VgiVerif.C02.C02_signature_echo",
+    "VgiVerif.C02.C02_hint_roundtrip",
+    "VgiVerif.C02.C02_hint_echo",
     "VgiVerif.C02.C02_shapes",
 ]
 EXTRACTORS = ["gen_c02", "gen_c03"]
@@ -50,6 +52,8 @@ TRUSTED = [
     "and the harness checks every transport against it",
 ]
 PARTIAL = [
+    "hints with the Optional inside the annotation (`Annotated[T | None, ...]`) are not resolved by the code (open finding; the model "
+    "reproduces it, C02_hint_roundtrip / C02_hint_echo cover the regular spellings, witnesses in Findings/C02.lean)",
     "Spec.Rejects is proved as C02_reject_partial (hypothesis `lossless env t v`: every temporal / decimal value inside v is stored "
     "unchanged or refused): values with sub-unit parts in second / millisecond temporal columns are truncated and Decimals with a "
     "39-digit coefficient are wrapped instead of rejected — two open findings, negation proved on witnesses in Findings/C02.lean",
@@ -67,7 +71,10 @@ RULE = (
     "boundary-biased (extremes of each integer width and +-1 beyond, NaN payloads / +-0 / +-inf / subnormals / float32 ties, "
     "empty / non-ASCII / astral strings, empty containers, None in every optional position, enum members whose value differs from "
     "their name or equals another member's name, first / last representable temporal values, unit-unaligned timestamps, decimals "
-    "at and beyond precision / scale); each value echoed over every transport of the tier; signatures of 1-5 parameters with "
+    "at and beyond precision / scale); every top-level type also in the other spellings of its hint (`Annotated[T, ArrowType(..)]`, "
+    "`Annotated[T, ArrowType(..)] | None`, `Annotated[T | None, ArrowType(..)]`, extra Annotated metadata, three layers), more often "
+    "for the types the receiver converts back (frozenset, dict, Enum, dataclass); "
+    "each value echoed over every transport of the tier; signatures of 1-5 parameters with "
     "defaults, called with random subsets of the defaulted arguments omitted; distinct by (type, value, transport)"
 )
 MANIFEST = {
@@ -118,7 +125,67 @@ def native_arrow(kind: int, p: int, s: int) -> tuple[Any, Any]:
     raise ValueError(kind)
 
 
+# hint shapes: how `X | None` and `Annotated[X, ...]` are combined around the type (key "hint" of a top-level type descriptor);
+# value = the layers outermost first, as the Lean model's `Wrap` ("ann" = Annotated with the declared ArrowType, "doc" = Annotated
+# with other metadata).  Python flattens directly nested Annotated, so "doc_ann" is one layer carrying both.
+HINTS_NONOPT: dict[str, list[str]] = {"plain": [], "ann": ["ann"], "doc": ["doc"], "doc_ann": ["ann"]}
+HINTS_OPT: dict[str, list[str]] = {
+    "plain": ["opt"], "ann_opt": ["opt", "ann"], "doc_opt": ["opt", "doc"], "doc_ann_opt": ["opt", "ann"],   # Optional outside
+    "opt_in_ann": ["ann", "opt"], "opt_in_doc": ["doc", "opt"], "ann_opt_in_doc": ["doc", "opt", "ann"],       # Optional inside
+}
+IRREGULAR = {"opt_in_ann", "opt_in_doc", "ann_opt_in_doc"}
+
+
+def hint_of(desc: dict[str, Any]) -> tuple[str, list[str], dict[str, Any]]:
+    """(shape name, layers, Optional-free core descriptor) of a top-level type descriptor."""
+    shape = desc.get("hint", "plain")
+    core = {k: v for k, v in desc.items() if k != "hint"}
+    if core["k"] == "opt":
+        return shape, HINTS_OPT[shape], core["a"]
+    return shape, HINTS_NONOPT[shape], core
+
+
+def arrow_of(desc: dict[str, Any]) -> Any:
+    """The Arrow type the framework infers for the annotation (computed here, not asked of the framework)."""
+    import pyarrow as pa
+
+    k = desc["k"]
+    if k == "int":
+        return dcgen.INT_WIDTHS[desc["w"]][0]
+    if k == "native":
+        return native_arrow(desc["kind"], desc["p"], desc["s"])[1]
+    if k == "opt":
+        return arrow_of(desc["a"])
+    if k in ("list", "set"):
+        return pa.list_(arrow_of(desc["a"]))
+    if k == "map":
+        return pa.map_(arrow_of(desc["key"]), arrow_of(desc["val"]))
+    return {"f64": pa.float64(), "f32": pa.float32(), "str": pa.string(), "bytes": pa.binary(), "bool": pa.bool_(),
+            "enum": pa.dictionary(pa.int16(), pa.string()), "dc": pa.binary()}[k]
+
+
 def build_ty(desc: dict[str, Any]) -> dcgen.Node:
+    """Node of a (possibly hint-shaped) type descriptor: the shape only changes the Python annotation."""
+    if desc.get("hint", "plain") == "plain":
+        return _build_ty({k: v for k, v in desc.items() if k != "hint"})
+    from vgi_rpc.utils import ArrowType
+
+    shape, layers, core = hint_of(desc)
+    node = _build_ty({k: v for k, v in desc.items() if k != "hint"})
+    py = _build_ty(core).py if desc["k"] == "opt" else node.py
+    for layer in reversed(layers):  # innermost first
+        if layer == "opt":
+            py = py | None
+        elif layer == "ann":
+            py = Annotated[py, ArrowType(arrow_of(core)), "doc"] if shape.startswith("doc_ann") else Annotated[py, ArrowType(arrow_of(core))]
+        else:
+            py = Annotated[py, "doc"]
+    node.py = py
+    node.desc = desc
+    return node
+
+
+def _build_ty(desc: dict[str, Any]) -> dcgen.Node:
     import pyarrow as pa
     from vgi_rpc.utils import ArrowType
 
@@ -207,6 +274,24 @@ def gen_leaf(rng: Any, k: str) -> dict[str, Any]:
         d = dcgen.gen_enum(rng)
         return d
     return {"k": k}
+
+
+def add_hint(rng: Any, t: dict[str, Any], regular_only: bool = False) -> dict[str, Any]:
+    """The hint-shape dimension: the same type written `Annotated[T, ArrowType(..)] | None`, `Annotated[T | None, ArrowType(..)]`,
+    with extra metadata, … — more often for the types the receiving side has to convert back."""
+    core = t["a"] if t["k"] == "opt" else t
+    needs_conversion = core["k"] in ("set", "map", "enum", "dc")
+    if rng.random() >= (0.65 if needs_conversion else 0.3):
+        return t
+    if t["k"] == "opt":
+        shapes = ["ann_opt", "ann_opt", "ann_opt", "doc_opt", "doc_ann_opt"]
+        if not regular_only:
+            shapes += ["opt_in_ann", "opt_in_doc", "ann_opt_in_doc"]
+    else:
+        shapes = ["ann", "ann", "doc", "doc_ann"]
+    out = dict(t)
+    out["hint"] = rng.choice(shapes)
+    return out
 
 
 def gen_ty(rng: Any, top: bool = True) -> dict[str, Any]:
@@ -526,12 +611,29 @@ def _canon_model(r: Any) -> Any:
     return {"ok": dcgen.canon_j(r["ok"])}
 
 
+def impl_j(node: dcgen.Node, v: Any) -> Any:
+    """Strict JSON of a value the implementation produced; raw IPC bytes standing for a dataclass are decoded (the model's
+    abstract `ipc` payload) so that an unconverted dataclass can be compared with the model."""
+    core = node.children[0] if node.kind == "opt" and node.children else node
+    if isinstance(v, (bytes, bytearray)) and core.kind == "dc":
+        try:
+            return dcgen.canon_j(dcgen.wire_j(core, bytes(v)))
+        except Exception:  # noqa: BLE001
+            pass
+    return dcgen.to_j(v)
+
+
 def judge(ctx: Any, case: dict[str, Any], tdesc: dict[str, Any], node: dcgen.Node, jval: Any, sent: Any, status: str, got: Any,
           received: Any, have_received: bool, transport: str, model: Any, server_alive: bool, well_typed: bool = True) -> None:
     """O and K for one echoed value."""
     fit = fits(tdesc, jval)
     none_bad = jval is None and tdesc["k"] != "opt"
     path = kind_path(tdesc)
+    shape = tdesc.get("hint", "plain")
+    if shape != "plain":
+        path = f"{path}@{shape}"
+    irregular = shape in IRREGULAR
+    core_kind = hint_of(tdesc)[2]["k"]
     if status in ("hang", "dead") or not server_alive:
         fail_once(ctx, case, f"C02:server-died:{path}:{transport}", f"the server stopped answering after echoing a {path} value (status {status})")
         return
@@ -544,32 +646,50 @@ def judge(ctx: Any, case: dict[str, Any], tdesc: dict[str, Any], node: dcgen.Nod
         if fit and not none_bad:
             want = dcgen.to_j(expected(node, sent), strict=False)
             if gj != want:
-                fail_once(ctx, case, f"C02:echo-differs:{path}", f"echo returned {gj}, sent {want} ({transport})")
+                fail_once(ctx, case, f"C02:hint-optional-inside-annotated:unconverted:{core_kind}" if irregular else f"C02:echo-differs:{path}",
+                          f"echo returned {gj}, sent {want} ({transport}, hint shape {shape})")
         else:
             if gj != dcgen.to_j(sent, strict=False):
                 fail_once(ctx, case, f"C02:silent-change:{offending(tdesc, jval)}", f"a value the declared type cannot represent was changed, not rejected: "
                                                               f"sent {dcgen.to_j(sent, False)}, got {gj} ({transport})")
     else:
         if fit and not none_bad:
-            fail_once(ctx, case, f"C02:echo-error:{path}:{type(got).__name__}", f"a representable value was refused ({transport}): {type(got).__name__}: {str(got)[:200]}")
+            fail_once(ctx, case, f"C02:hint-optional-inside-annotated:refused:{'none' if jval is None else core_kind}" if irregular
+                      else f"C02:echo-error:{path}:{type(got).__name__}",
+                      f"a representable value was refused ({transport}, hint shape {shape}): {type(got).__name__}: {str(got)[:200]}")
     if have_received and fit and not none_bad:
         rj = dcgen.to_j(received, strict=False)
         want = dcgen.to_j(expected(node, sent), strict=False)
         if rj != want:
-            fail_once(ctx, case, f"C02:kwargs-differ:{path}", f"the implementation received {rj}, the client passed {want} ({transport})")
+            fail_once(ctx, case, f"C02:hint-optional-inside-annotated:unconverted:{core_kind}" if irregular else f"C02:kwargs-differ:{path}",
+                      f"the implementation received {rj}, the client passed {want} ({transport}, hint shape {shape})")
     if model is not None:
         m_echo = _canon_model(model["echo"])
-        i_echo = {"ok": dcgen.to_j(got)} if status == "ok" else {"err": 1}
+        i_echo = {"ok": impl_j(node, got)} if status == "ok" else {"err": 1}
         if m_echo != i_echo:
             ctx.mismatch(case, m_echo, i_echo, f"echo over {transport}: model vs implementation")
         m_param = _canon_model(model["param"])
         if have_received:
-            if m_param != {"ok": dcgen.to_j(received)}:
-                ctx.mismatch(case, m_param, {"ok": dcgen.to_j(received)}, f"kwargs received over {transport}: model vs implementation")
+            if m_param != {"ok": impl_j(node, received)}:
+                ctx.mismatch(case, m_param, {"ok": impl_j(node, received)}, f"kwargs received over {transport}: model vs implementation")
         elif m_param is not None and "ok" in m_param:
             ctx.mismatch(case, m_param, "method not invoked", f"kwargs received over {transport}: model vs implementation")
         if fit != model["inhabits"] and well_typed and not none_bad and jval is not None:
             ctx.mismatch(case, {"inhabits": model["inhabits"]}, {"fits": fit}, "representability: model (Spec.inhabits) vs harness (property text)")
+
+
+def _schema_req(t: dict[str, Any]) -> tuple[str, Any]:
+    if "hint" in t:
+        _shape, layers, core = hint_of(t)
+        return "C02.hschema", {"ty": core, "wraps": layers}
+    return "C02.schema", {"ty": t}
+
+
+def _value_req(t: dict[str, Any], sj: Any) -> tuple[str, Any]:
+    if "hint" in t:
+        _shape, layers, core = hint_of(t)
+        return "C02.hvalue", {"ty": core, "wraps": layers, "v": sj}
+    return "C02.value", {"ty": t, "v": sj}
 
 
 def run_values(ctx: Any, types: list[dict[str, Any]], values: list[list[Any]], origin: str) -> None:
@@ -588,7 +708,7 @@ def run_values(ctx: Any, types: list[dict[str, Any]], values: list[list[Any]], o
         return
     drv = ctx.driver
     if drv is not None:
-        res = drv.batch([("C02.schema", {"ty": t}) for t in types])
+        res = drv.batch([_schema_req(t) for t in types])
         for i, (t, m) in enumerate(zip(types, res)):
             info = infos[f"e{i}"]
             impl_s = {"param": render_type(info.params_schema.field(0).type), "result": render_type(info.result_schema.field(0).type),
@@ -605,7 +725,7 @@ def run_values(ctx: Any, types: list[dict[str, Any]], values: list[list[Any]], o
             sent = dcgen.to_py(node, jval)
             sj = dcgen.to_j_ordered(sent)
             sents[(i, jx)] = (sent, sj)
-            reqs.append(((i, jx), ("C02.value", {"ty": t, "v": sj})))
+            reqs.append(((i, jx), _value_req(t, sj)))
     if drv is not None:
         for (key, _), r in zip(reqs, drv.batch([r for _, r in reqs])):
             models[key] = r
@@ -619,7 +739,8 @@ def run_values(ctx: Any, types: list[dict[str, Any]], values: list[list[Any]], o
                     sent, _sj = sents[(i, jx)]
                     case = {"kind": "value", "ty": t, "v": jval, "transport": tr}
                     ctx.case(case, nontrivial=True, tags=(f"transport:{tr}", f"type:{t['k']}", f"path:{kind_path(t)}"[:60], f"origin:{origin}",
-                                                          "fits:" + ("yes" if fits(t, jval) else "no"), "none" if jval is None else "value"))
+                                                          "fits:" + ("yes" if fits(t, jval) else "no"), "none" if jval is None else "value",
+                                                          f"hint:{t.get('hint', 'plain')}"))
                     rec.calls.clear()
                     status, got = runner.call(f"e{i}", {"v": sent})
                     have = bool(rec.calls)
@@ -637,7 +758,7 @@ def gen_signature(rng: Any) -> list[dict[str, Any]]:
     names = rng.sample(["a", "b", "c", "x", "y", "val", "name", "n", "items", "état"], n)
     sig = []
     for nm in names:
-        t = gen_ty(rng)
+        t = add_hint(rng, gen_ty(rng), regular_only=True)
         p: dict[str, Any] = {"name": s2j(nm), "ty": t}
         if rng.random() < 0.5:
             for _ in range(10):
@@ -820,6 +941,24 @@ def corpus_types() -> tuple[list[dict[str, Any]], list[list[Any]]]:
         ({"k": "native", "kind": 5, "p": 38, "s": 0}, [{"n": [5, -386588882507734923781764784854539347556, -1]}, {"n": [5, 10**38 - 1, 0]}, {"n": [5, 10**38, 0]},
                                                        {"n": [5, 386588882507734923781764784854539347551, -1]}]),
     ]
+    # hint shapes: every type the receiving side converts back (and two it does not), written every way `X | None` and
+    # `Annotated[X, ...]` combine, with a value and with None
+    conv: list[tuple[dict[str, Any], Any]] = [
+        ({"k": "set", "a": {"k": "int", "w": "int16", "explicit": True}}, {"fs": [{"i": 7}, {"i": 8}]}),
+        ({"k": "set", "a": {"k": "str"}}, {"fs": []}),
+        ({"k": "map", "key": {"k": "str"}, "val": {"k": "int", "w": "int32", "explicit": True}}, {"d": [[{"s": S("é")}, {"i": -1}], [{"s": []}, {"i": 0}]]}),
+        (color, {"e": S("GREEN")}),
+        (inner, {"o": [S("InnerC02"), [[S("x"), {"i": 3}], [S("s"), {"fs": [{"e": S("RED")}]}]]]}),
+        ({"k": "int", "w": "int32", "explicit": True}, {"i": 5}),
+        ({"k": "list", "a": {"k": "opt", "a": {"k": "str"}}}, {"l": [{"s": S("a")}, None]}),
+    ]
+    for core, val in conv:
+        for shape in HINTS_NONOPT:
+            if shape != "plain":
+                t.append(({**core, "hint": shape}, [val]))
+        for shape in HINTS_OPT:
+            if shape != "plain":
+                t.append(({"k": "opt", "a": core, "hint": shape}, [val, None]))
     return [a for a, _ in t], [b for _, b in t]
 
 
@@ -839,7 +978,7 @@ def run(ctx: Any) -> None:
     n_bundles = ctx.budget(32, 500)
     per_type = 8 if ctx.tier == "quick" else 10
     for b in range(n_bundles):
-        types = [gen_ty(rng) for _ in range(12)]
+        types = [add_hint(rng, gen_ty(rng)) for _ in range(12)]
         values = [[gen_val(rng, t) for _ in range(per_type)] for t in types]
         run_values(ctx, types, values, "generated")
         if ctx.elapsed() > (28 if ctx.tier == "quick" else 500):
